@@ -172,3 +172,56 @@ func ZZVerif_C01_AppendBMC() {
 	zzverif.Assert("historical proof verifies", CalculateRoot(leaves[i], proof, uint32(i)) == roots[j])
 	zzverif.Reach("end")
 }
+
+// ZZVerif_C08_UpdatableBMC: K upserts at arbitrary positions 0..3 of the updatable tree, restart possible before each. For every
+// recorded root j and every position i: GetLeaf(i, root_j) is the value last written at i as of j (zero if never written)
+// and, when the position was written, the proof returned for (i, root_j) hashes with that leaf to root_j.
+func ZZVerif_C08_UpdatableBMC() {
+	database := zzOpenTreeDB()
+	ctx := context.Background()
+	t := NewUpdatableTree(database, "")
+	k := zzverif.Param("K")
+	var cur [4]common.Hash
+	var written [4]bool
+	hist := make([][4]common.Hash, k)
+	histW := make([][4]bool, k)
+	roots := make([]common.Hash, k)
+	for s := 0; s < k; s++ {
+		if zzverif.Bool("restart") {
+			t = NewUpdatableTree(database, "")
+		}
+		pos := uint32(zzverif.Int("pos", 0, 3))
+		v := common.Hash(zzverif.Hash("val"))
+		zzverif.Assume(v != common.Hash{} && v != cur[pos])
+		for q := 0; q < s; q++ {
+			// values are fresh: the tree never returns to a configuration it had before (see known finding C11-1)
+			zzverif.Assume(v != hist[q][0] && v != hist[q][1] && v != hist[q][2] && v != hist[q][3])
+		}
+		tx, err := db.NewTx(ctx, database)
+		zzverif.Assert("begin", err == nil)
+		r, err := t.UpsertLeaf(tx, uint64(s+1), 0, types.Leaf{Index: pos, Hash: v})
+		zzverif.Assert("UpsertLeaf succeeds", err == nil)
+		zzverif.Assert("commit", tx.Commit() == nil)
+		cur[pos] = v
+		written[pos] = true
+		hist[s], histW[s], roots[s] = cur, written, r
+		last, err := t.GetLastRoot(nil)
+		zzverif.Assert("last root is the returned root", err == nil && last.Hash == r)
+	}
+	j := zzverif.Int("j", 0, k-1)
+	i := uint32(zzverif.Int("i", 0, 3))
+	if histW[j][i] {
+		leaf, err := t.GetLeaf(database, i, roots[j])
+		zzverif.Assert("GetLeaf ok", err == nil)
+		zzverif.Assert("GetLeaf returns the value last written as of that root", leaf == hist[j][i])
+		proof, err := t.GetProof(ctx, i, roots[j])
+		zzverif.Assert("GetProof ok", err == nil)
+		zzverif.Assert("proof verifies against the requested root", CalculateRoot(hist[j][i], proof, i) == roots[j])
+		zzverif.Reach("written")
+	} else {
+		proof, err := t.GetProof(ctx, i, roots[j])
+		zzverif.Assert("GetProof ok (unwritten position)", err == nil)
+		zzverif.Assert("proof of the empty leaf verifies", CalculateRoot(common.Hash{}, proof, i) == roots[j])
+		zzverif.Reach("unwritten")
+	}
+}
